@@ -12,7 +12,9 @@ RULE = ('router: histories of add-rule / remove-rule / deliver-message on Messag
         'interface, member, path, path_namespace, destination, argN, argNpath with values drawn from small pools built to '
         'contain matches, near-misses on a single key and sibling paths sharing a textual prefix (/a/b vs /a/bc), argument '
         'paths with and without trailing slash on either side; messages of all four types with bodies that are absent, too '
-        'short or non-string at the constrained index; some callbacks raise. oracle: an independent matcher coded from the '
+        'short or non-string at the constrained index; one rule may constrain some arguments by value and others as '
+        'paths; half of the messages are derived from one of the rules (satisfying all of it) with at most one '
+        'constrained place perturbed; some callbacks raise. oracle: an independent matcher coded from the '
         'statement; after every delivery the multiset of invoked callbacks equals the active matching rules, once each. '
         'client: the same through DBusClientConnection.addMatch/delMatch on an in-memory connection - the AddMatch / '
         'RemoveMatch calls are captured, their rule text parsed by the reference match-rule parser must express exactly the '
